@@ -1325,6 +1325,11 @@ struct Extractor {
               DC = DC->getParent();
             }
             J.attribute("dep", dep);
+            if (VD->getInit() && !dep && (VD->isConstexpr() || VD->getType().isConstQualified())) {
+              J.attributeBegin("init");
+              emitExpr(J, VD->getInit());
+              J.attributeEnd();
+            }
           });
         }
       });
